@@ -31,13 +31,18 @@ from asynq import asynq as _asynq_deco, async_proxy, ConstFuture, ErrorFuture, F
 from .prog import HErr, tok, R1, _R1Err
 
 STYLES = ("fn", "method", "proxy", "mix")
+
+
+class HVal(Exception):
+    """an exception object used as an ORDINARY VALUE (never raised by the harness): HVal(payload)"""
 R = None  # current recorder
 
 
 class Rec(object):
-    __slots__ = ("log", "style", "aio", "mode", "closed", "native", "loop_errors", "flags_outer", "flags_watch", "const_flags", "iters", "errs")
+    __slots__ = ("log", "style", "aio", "mode", "closed", "native", "loop_errors", "flags_outer", "flags_watch", "const_flags", "iters", "errs", "xv")
 
-    def __init__(self, style, aio, mode):
+    def __init__(self, style, aio, mode, xv=0):
+        self.xv = xv  # 1: every constant and every task return value is an Exception INSTANCE (an ordinary value)
         self.log = []
         self.style = style  # 0 fn, 1 method, 2 async_proxy, 3 mixed by task id (fn, method, proxy, async_call)
         self.aio = aio  # 0: no explicit asyncio_fn; 1: tasks with even id have one; 2: odd ids
@@ -56,6 +61,7 @@ class _NullRec(object):
     closed = True
     style = 0
     aio = 0
+    xv = 0
     mode = "none"
 
     def __init__(self):
@@ -97,11 +103,12 @@ def _const(r, lid):
     st = r.style
     if st == 3:
         st = lid % 3
+    v = HVal(("k", lid)) if r.xv else ("k", lid)
     if st == 0:
-        return ConstFuture(("k", lid))
+        return ConstFuture(v)
     if st == 1:
-        return OBJ.c_m.asynq(("k", lid))
-    return k_px.asynq(("k", lid))
+        return OBJ.c_m.asynq(v)
+    return k_px.asynq(v)
 
 
 # --------------------------------------------------------------------------------------------------
@@ -162,7 +169,7 @@ def _gblock(r, tc, stmts, rec):
             except Exception as e:
                 t = tok(e)
                 log.append(("c", tid, st[1], t, is_asyncio_mode()))
-                rec.append(("caught", t))
+                rec.append(e if r.xv else ("caught", t))  # xv: the caught exception object itself becomes part of the value
                 yield from _gblock(r, tc, st[3], rec)
         elif op == "raise":
             raise HErr(("raise", tid, st[1]))
@@ -198,6 +205,8 @@ def _gtask(tc):
             log.append(("e", tid, tok(e), is_asyncio_mode()))
         raise
     log.append(("e", tid, "ok", is_asyncio_mode()))
+    if r.xv:
+        return HVal(("t", tid, tuple(rec)))
     return ("t", tid, tuple(rec))
 
 
@@ -230,7 +239,7 @@ def _nbuild(r, s, coros):
         coros.append(_route(r, s[2]).asyncio(s[2]))
         return _Slot(len(coros) - 1)
     if op == "k":
-        return _Kv(("k", s[1]))
+        return _Kv(HVal(("k", s[1])) if r.xv else ("k", s[1]))
     if op == "n":
         return None
     if op == "L":
@@ -257,6 +266,14 @@ def _nfill(t, res):
     return t
 
 
+async def _settle(coro):
+    # outcome of one child without confusing "returned an exception object" with "raised"
+    try:
+        return (True, await coro)
+    except Exception as e:
+        return (False, e)
+
+
 async def _nyield(r, s):
     if s[0] == "c":
         return await _route(r, s[2]).asyncio(s[2])
@@ -264,11 +281,11 @@ async def _nyield(r, s):
     shape = _nbuild(r, s, coros)
     if not coros:
         return _nfill(shape, ())
-    res = await asyncio.gather(*coros, return_exceptions=True)
-    for x in res:
-        if isinstance(x, BaseException):
+    res = await asyncio.gather(*[_settle(c) for c in coros])  # all children finish; then first failure in order
+    for ok, x in res:
+        if not ok:
             raise x
-    return _nfill(shape, res)
+    return _nfill(shape, [x for ok, x in res])
 
 
 async def _nblock(r, tc, stmts, rec):
@@ -293,7 +310,7 @@ async def _nblock(r, tc, stmts, rec):
                     raise
                 t = tok(e)
                 log.append(("c", tid, st[1], t, is_asyncio_mode()))
-                rec.append(("caught", t))
+                rec.append(e if r.xv else ("caught", t))
                 await _nblock(r, tc, st[3], rec)
         elif op == "raise":
             raise HErr(("raise", tid, st[1]))
@@ -322,6 +339,8 @@ async def _ntask(tc):
             log.append(("e", tid, tok(e), is_asyncio_mode()))
         raise
     log.append(("e", tid, "ok", is_asyncio_mode()))
+    if r.xv:
+        return HVal(("t", tid, tuple(rec)))
     return ("t", tid, tuple(rec))
 
 
@@ -431,11 +450,11 @@ def reset_asynq():
     _batching._debug_batch_state.batches.clear()
 
 
-def run_sync(prog, style, aio):
+def run_sync(prog, style, aio, xv=0):
     """`fn(code)` on the asynq scheduler. Returns (recorder, ("ok", value) | ("err", exception))."""
     global R
     reset_asynq()
-    r = R = Rec(style, aio, "sync")
+    r = R = Rec(style, aio, "sync", xv)
     r.flags_outer.append(is_asyncio_mode())
     try:
         try:
@@ -489,13 +508,13 @@ async def _watch(flags, done):
     flags.append(is_asyncio_mode())
 
 
-def run_aio(prog, style, aio, max_iters=None):
+def run_aio(prog, style, aio, xv=0, max_iters=None):
     """`await fn.asyncio(code)` on the worker's event loop, one loop iteration at a time (bounded).
     Returns (recorder, outcome, problems) where problems lists loop-level anomalies (sig, msg)."""
     global R
     reset_asynq()
     loop = get_loop()
-    r = R = Rec(style, aio, "aio")
+    r = R = Rec(style, aio, "aio", xv)
     problems = []
     if max_iters is None:
         max_iters = 64 + 16 * prog.nstmts + 16 * prog.ntasks
@@ -640,9 +659,54 @@ def yields_children(prog):
     return res
 
 
-def strip_flags(log):
-    """per-task event sequences without the flag field"""
+def norm(v):
+    """values with exception OBJECTS replaced by (kind, type name, normalised args), so that two runs / the reference can
+    be compared by type + args instead of identity: HVal(x) -> ("HV", norm(x)); HErr(tag) -> ("X", "HErr", tag); any other
+    exception -> ("X", type name)"""
+    c = v.__class__
+    if c is HVal:
+        return ("HV", norm(v.args[0])) if len(v.args) == 1 else ("HV?", norm(v.args))
+    if c is tuple:
+        return tuple([norm(x) for x in v])
+    if c is list:
+        return [norm(x) for x in v]
+    if c is dict:
+        return {k: norm(x) for k, x in v.items()}
+    if isinstance(v, BaseException):
+        if c is HErr:
+            return ("X", "HErr", v.tag) if v.args == (v.tag,) else ("X?", "HErr", norm(v.args))
+        return ("X", c.__name__)
+    return v
+
+
+def xv_expected(v):
+    """the norm() image of the value the exception-valued variant of a program must produce, from R1's plain value"""
+    c = v.__class__
+    if c is tuple:
+        if v and v[0].__class__ is str:
+            if v[0] == "t":
+                return ("HV", ("t", v[1], tuple([xv_expected(x) for x in v[2]])))
+            if v[0] == "k":
+                return ("HV", v)
+            if v[0] == "caught":
+                t = v[1]
+                if t.__class__ is tuple and len(t) == 2 and t[0] == "exc":
+                    return ("X", t[1])
+                return ("X", "HErr", t)
+            raise ValueError(v)
+        return tuple([xv_expected(x) for x in v])
+    if c is list:
+        return [xv_expected(x) for x in v]
+    if c is dict:
+        return {k: xv_expected(x) for k, x in v.items()}
+    return v
+
+
+def strip_flags(log, xv=0):
+    """per-task event sequences without the flag field (values normalised when they may hold exception objects)"""
     per = {}
     for ev in log:
+        if xv and ev[0] == "r":
+            ev = ("r", ev[1], ev[2], norm(ev[3]), ev[4])
         per.setdefault(ev[1], []).append(ev[:-1])
     return per
